@@ -1,4 +1,278 @@
-// Kani harnesses mounted inside src/ser_quoting.rs (child module: sees private items)
+// Kani harnesses mounted inside src/ser_quoting.rs (child module: sees private items).
+//
+// C12: a string is emitted plain only if the plain form reads back as the identical string (not
+// as null / bool / number / merge key / document marker, and without losing characters).
+//
+// Oracle: a list of *necessary* conditions for a single-line plain scalar to read back verbatim
+// (YAML 1.2 plain-scalar productions + the deserializer's own null/bool/number tables). The
+// predicates may be stricter than the oracle (quoting is always safe), never laxer. Every oracle
+// failure is conjoined with an end-to-end confirmation (see verif_common::e2e_string_mismatch), so
+// an over-strict oracle cannot raise an alarm.
+use super::*;
+use crate::verif_common::numlook;
+use crate::verif_common::stdlite;
+use crate::verif_common::{any_utf8, as_str, e2e_string_mismatch, e2e_true_string, eq_ci};
+
+fn is_indicator_start(c: u8) -> bool {
+    matches!(
+        c,
+        b',' | b'[' | b']' | b'{' | b'}' | b'#' | b'&' | b'*' | b'!' | b'|' | b'>' | b'\'' | b'"' | b'%' | b'@' | b'`'
+    )
+}
+
+fn has_control(b: &[u8]) -> bool {
+    let mut i = 0;
+    while i < b.len() {
+        let x = b[i];
+        if x < 0x20 || x == 0x7F {
+            return true;
+        }
+        if x == 0xC2 && i + 1 < b.len() && b[i + 1] >= 0x80 && b[i + 1] <= 0x9F {
+            return true;
+        }
+        i += 1;
+    }
+    false
+}
+
+fn has_sub2(b: &[u8], x: u8, y: u8) -> bool {
+    let mut i = 0;
+    while i + 1 < b.len() {
+        if b[i] == x && b[i + 1] == y {
+            return true;
+        }
+        i += 1;
+    }
+    false
+}
+
+fn has_byte(b: &[u8], x: u8) -> bool {
+    let mut i = 0;
+    while i < b.len() {
+        if b[i] == x {
+            return true;
+        }
+        i += 1;
+    }
+    false
+}
+
+fn is_digit(c: u8) -> bool {
+    c >= b'0' && c <= b'9'
+}
+
+/// Reference: does the deserializer (or Rust's float syntax it delegates to) read this plain token
+/// as an integer or a float? Grammar: [+-]? ( 0x hex+ | 0o oct+ | 0b bin+ | dec (with _) |
+/// digits* '.' digits* exp? | digits+ exp ) | [+-]?(inf|nan|infinity) | [+-]?.inf | [+-.]nan forms
+fn ref_number(b: &[u8]) -> bool {
+    let mut i = 0;
+    if i < b.len() && (b[i] == b'+' || b[i] == b'-') {
+        i += 1;
+    }
+    let r = &b[i..];
+    if r.is_empty() {
+        return false;
+    }
+    if eq_ci(r, b"inf") || eq_ci(r, b"nan") || eq_ci(r, b".inf") || eq_ci(r, b".nan") || eq_ci(r, b"infinity") {
+        return true;
+    }
+    // radix integers (either case of the prefix letter is accepted by the deserializer)
+    if r.len() >= 3 && r[0] == b'0' {
+        let p = r[1] | 0x20;
+        if p == b'x' || p == b'o' || p == b'b' {
+            let mut saw = false;
+            let mut ok = true;
+            let mut j = 2;
+            while j < r.len() {
+                let c = r[j];
+                let good = if c == b'_' {
+                    true
+                } else if p == b'x' {
+                    saw = true;
+                    is_digit(c) || ((c | 0x20) >= b'a' && (c | 0x20) <= b'f')
+                } else if p == b'o' {
+                    saw = true;
+                    c >= b'0' && c <= b'7'
+                } else {
+                    saw = true;
+                    c == b'0' || c == b'1'
+                };
+                if !good {
+                    ok = false;
+                }
+                j += 1;
+            }
+            if ok && saw {
+                return true;
+            }
+        }
+    }
+    // decimal integer with separators
+    {
+        let mut saw = false;
+        let mut ok = true;
+        let mut j = 0;
+        while j < r.len() {
+            if is_digit(r[j]) {
+                saw = true;
+            } else if r[j] != b'_' {
+                ok = false;
+            }
+            j += 1;
+        }
+        if ok && saw {
+            return true;
+        }
+    }
+    // Rust float: digits* [. digits*] [e [+-] digits+], at least one mantissa digit
+    let mut j = 0;
+    let mut mant = 0;
+    while j < r.len() && is_digit(r[j]) {
+        j += 1;
+        mant += 1;
+    }
+    if j < r.len() && r[j] == b'.' {
+        j += 1;
+        while j < r.len() && is_digit(r[j]) {
+            j += 1;
+            mant += 1;
+        }
+    }
+    if mant == 0 {
+        return false;
+    }
+    if j < r.len() && (r[j] == b'e' || r[j] == b'E') {
+        j += 1;
+        if j < r.len() && (r[j] == b'+' || r[j] == b'-') {
+            j += 1;
+        }
+        let mut ed = 0;
+        while j < r.len() && is_digit(r[j]) {
+            j += 1;
+            ed += 1;
+        }
+        if ed == 0 {
+            return false;
+        }
+    }
+    j == r.len()
+}
+
+/// Necessary conditions for `b` to read back verbatim as a string when written plain.
+fn plain_reads_back(b: &[u8], key: bool, in_flow: bool, yaml_12: bool) -> bool {
+    let n = b.len();
+    if n == 0 {
+        return false; // empty plain scalar is null
+    }
+    // leading / trailing blanks are not part of a plain scalar
+    if b[0] == b' ' || b[n - 1] == b' ' {
+        return false;
+    }
+    if has_control(b) {
+        return false; // tabs, line breaks, NEL, C0/C1: folded, stripped or rejected by the reader
+    }
+    // a byte order mark at the very start is consumed by the reader
+    if n >= 3 && b[0] == 0xEF && b[1] == 0xBB && b[2] == 0xBF {
+        return false;
+    }
+    if is_indicator_start(b[0]) {
+        return false;
+    }
+    if b[0] == b'-' || b[0] == b'?' || b[0] == b':' {
+        if n == 1 || b[1] == b' ' {
+            return false;
+        }
+    }
+    // ": " ends a key, " #" starts a comment, a trailing ':' is a key indicator
+    if has_sub2(b, b':', b' ') || has_sub2(b, b' ', b'#') || b[n - 1] == b':' {
+        return false;
+    }
+    if in_flow && (has_byte(b, b',') || has_byte(b, b'[') || has_byte(b, b']') || has_byte(b, b'{') || has_byte(b, b'}')) {
+        return false;
+    }
+    // the deserializer's own tables
+    if (n == 1 && b[0] == b'~') || eq_ci(b, b"null") || eq_ci(b, b"true") || eq_ci(b, b"false") {
+        return false;
+    }
+    if !yaml_12 && !key {
+        if eq_ci(b, b"yes") || eq_ci(b, b"no") || eq_ci(b, b"y") || eq_ci(b, b"n") || eq_ci(b, b"on") || eq_ci(b, b"off") {
+            return false;
+        }
+    }
+    if ref_number(b) {
+        return false;
+    }
+    // merge key and document markers
+    if key && n == 2 && b[0] == b'<' && b[1] == b'<' {
+        return false;
+    }
+    if n >= 3 && ((b[0] == b'-' && b[1] == b'-' && b[2] == b'-') || (b[0] == b'.' && b[1] == b'.' && b[2] == b'.')) {
+        if n == 3 || b[3] == b' ' {
+            return false;
+        }
+    }
+    true
+}
+
+fn key_plain_n<const N: usize>() {
+    let a: [u8; N] = any_utf8::<N>();
+    let s = as_str(&a);
+    if is_plain_safe(s) {
+        let ok = plain_reads_back(&a, true, false, false);
+        assert!(
+            ok || !e2e_string_mismatch(s, 3, false, false),
+            "a mapping key is emitted plain although the plain form does not read back as the same string"
+        );
+        kani::cover!(true, "some key is plain-safe");
+    }
+}
+
+fn value_plain_n<const N: usize>() {
+    let a: [u8; N] = any_utf8::<N>();
+    let s = as_str(&a);
+    let yaml_12: bool = kani::any();
+    let in_flow: bool = kani::any();
+    if is_plain_value_safe(s, yaml_12, in_flow) {
+        let ok = plain_reads_back(&a, false, in_flow, yaml_12);
+        let confirmed = if in_flow {
+            e2e_string_mismatch(s, 4, false, yaml_12) || e2e_string_mismatch(s, 5, false, yaml_12)
+        } else {
+            e2e_string_mismatch(s, 0, false, yaml_12)
+                || e2e_string_mismatch(s, 1, false, yaml_12)
+                || e2e_string_mismatch(s, 2, false, yaml_12)
+        };
+        assert!(
+            ok || !confirmed,
+            "a string value is emitted plain although the plain form does not read back as the same string"
+        );
+        kani::cover!(in_flow, "plain in flow context");
+        kani::cover!(!in_flow && yaml_12, "plain in block context, YAML 1.2 mode");
+    }
+}
+
+macro_rules! quoting_harness {
+    ($name:ident, $f:ident, $n:expr, $unwind:expr) => {
+        #[kani::proof]
+        #[kani::unwind($unwind)]
+        #[kani::stub(core::str::validations::run_utf8_validation, stdlite::run_utf8_validation)]
+        #[kani::stub(core::str::pattern::simd_contains, stdlite::simd_contains)]
+        #[kani::stub(alloc::fmt::format, stdlite::format_stub)]
+        #[kani::stub(is_numeric_looking, numlook::numeric_looking)]
+        #[kani::stub(e2e_string_mismatch, e2e_true_string)]
+        fn $name() {
+            $f::<$n>()
+        }
+    };
+}
+
+quoting_harness!(c12_key_plain_1, key_plain_n, 1, 9);
+quoting_harness!(c12_key_plain_2, key_plain_n, 2, 9);
+quoting_harness!(c12_key_plain_3, key_plain_n, 3, 9);
+quoting_harness!(c12_key_plain_4, key_plain_n, 4, 10);
+quoting_harness!(c12_value_plain_1, value_plain_n, 1, 9);
+quoting_harness!(c12_value_plain_2, value_plain_n, 2, 9);
+quoting_harness!(c12_value_plain_3, value_plain_n, 3, 9);
+quoting_harness!(c12_value_plain_4, value_plain_n, 4, 10);
 
 // concrete-playback slot: bin/check writes the solver counterexample here as a unit test for native replay
 include!("/verif/.build/playback/ser_quoting_pb.rs");
